@@ -102,3 +102,26 @@ PROPS["C06"] = dict(
                                              "variants_huge_chunks": 20, "calls_output_limited": 100}),
     assumptions=[A_SAN, A_GEN],
 )
+
+PROPS["C13"] = dict(
+    title="Grammar transformations and FSG files preserve the grammar",
+    level="exploration",
+    technique="runtime oracle: tropical-semiring string table (naive Bellman-Ford) over generator-side arcs vs arcs observed through fsg_model_arcs after each transformation, under ASan/UBSan",
+    level_text="exploration: for each random finite-state grammar (1-12 states, null chains and cycles, duplicate arcs, self-loops, "
+               "unreachable states, probabilities 1e-30..1, lw 1..9.5, built through the API or from generated FSG text) the best weight "
+               "of all 364 word strings of length <= 5 over a 3-word alphabet is computed from the generator's own arc list and must be "
+               "reproduced after construction, after the null closure (also when following at most one null arc between words; second "
+               "closure changes nothing), after silence/filler loops (exact k-penalty law, idempotent) and alternates, and the "
+               "write/read round trip must keep states, labelled arcs and probabilities to the printed precision.",
+    level_note="string length bounded by 5 and alphabet by 3; round-trip probabilities are compared in the linear domain with "
+               "0.5e-6 (six printed decimals) + 3e-4 relative (log-base 1.0001 quantisation and float32 parsing)",
+    rule="one case = one generated grammar taken through every transformation; non-trivial = the grammar accepts >= 2 of the 364 strings; "
+         "distinct = hash of the generated arc multiset.",
+    stages=[
+        dict(harness="h_fsgxf", flavor="asan", quick=2500, thorough=40000, leaks=True),
+        dict(harness="h_fsgxf", flavor="fast", quick=4000, thorough=120000, name="h_fsgxf_fast"),
+    ],
+    floor=dict(min_evaluations=1000, min_distinct=300, counters={"closures_checked": 1000, "roundtrips_compared": 300, "silence_checked": 1000,
+                                                                 "alt_checked": 200, "filler_insertions_checked": 500, "built_from_text": 200}),
+    assumptions=[A_SAN, A_GEN],
+)
